@@ -7,7 +7,7 @@ if [ -z "$IDS" ]; then IDS=$(python3 -c "import json; print(' '.join(c['property
 mkdir -p /tmp/runall_$TIER
 for p in $IDS; do
   s=$(date +%s)
-  ./check $p $TIER > /tmp/runall_$TIER/$p.log 2>&1; rc=$?
+  ./check $p $TIER $EXTRA > /tmp/runall_$TIER/$p.log 2>&1; rc=$?
   e=$(date +%s)
   echo "$p exit=$rc $((e-s))s $(grep -E '^\[' /tmp/runall_$TIER/$p.log | tail -1 | cut -c1-200)"
 done
